@@ -102,7 +102,7 @@ Section CoversMain.
                   go re native T A cov (Some l) fmt enum None nv sv ik items mni mxi props req ap
                      None None None None None (S ft0) nn0 t0 = true).
         { intros t0 Hk0 ft0 nn0 Hnn.
-          destruct k as [| | | |mx mn pat|r|raws|deny| |c|c|r|]; try contradiction; cbn [kshape] in Hk0.
+          destruct k as [| | | |mx mn pat|r|raws|deny| | |c|c|r|]; try contradiction; cbn [kshape] in Hk0.
           - subst tt. eapply go_leaf; [exact Hk0|reflexivity..|].
             cbn [leaf_ok]. apply Htyis; [exact Hnn|discriminate|reflexivity].
           - subst tt. eapply go_leaf; [exact Hk0|reflexivity..|].
@@ -149,6 +149,20 @@ Section CoversMain.
               cbn [covers]. unfold FT. apply accepts_any_json. exact Hval.
             + cbn [frag_kind] in Hf. cbn [OForall] in IHap. apply (Cv_covers _ _ false IHap Hf Hval).
             + unfold FT. apply accepts_any_json. exact Hval.
+          - (* KTuple *)
+            destruct Hk0 as (ts & Hk0 & Hall). destruct Hinv as (-> & ->).
+            apply tuple_len_inv in Hlen. destruct Hlen as [-> ->].
+            cbn [frag_kind] in Hf.
+            eapply go_leaf; [exact Hk0|reflexivity..|].
+            cbn [leaf_ok]. unfold tuple_case. rewrite (Htyis nn0 [TArray] Hnn); [|discriminate|reflexivity]. cbn [andb].
+            assert (Hcvl : forall its ts0, Forall Cv its -> forallb (frag cls keys) its = true ->
+                       AllP2 (shape cls D T) its ts0 -> length ts0 = length its /\ cov_list cov its ts0 = true).
+            { induction its as [|it its IHl]; intros [|tq ts0] HC Hfr HA; cbn [AllP2] in HA; try contradiction.
+              - split; reflexivity.
+              - destruct HA as [HA1 HA2]. cbn [forallb] in Hfr. apply andb_true_iff in Hfr. destruct Hfr as [Hf1 Hf2].
+                destruct (IHl ts0 (Forall_inv_tail HC) Hf2 HA2) as [Hl Hc]. split; [cbn [length]; f_equal; exact Hl|].
+                cbn [cov_list]. rewrite (Cv_covers _ _ false (Forall_inv HC) Hf1 HA1), Hc. reflexivity. }
+            destruct (Hcvl items ts IHitems Hf Hall) as [Hl Hc]. rewrite Hl, N.eqb_refl, Hc. reflexivity.
           - destruct Hk0 as (i & Hk0 & Hit). destruct Hinv as (-> & -> & it & ->).
             cbn [frag_kind forallb] in Hf. rewrite andb_true_r in Hf.
             pose proof (Cv_covers _ _ false (Forall_inv IHitems) Hf Hit) as Hel.
